@@ -242,7 +242,7 @@ def run(sh):
         if i % sh.nshards == sh.shard:
             shape = [(2, 3), (3, 2), (2, 2), (1, 3), (3, 1)][(i + sh.seed) % 5]
             guarded(sh, run_one, sh, make_case(rng, shape=shape, axis=ax, kind=k), 'class_cover')
-    K = 2 if sh.tier == 'quick' else 50
+    K = 2 if sh.tier == 'quick' else 150
     for it in range(K):
         guarded(sh, run_one, sh, make_case(rng))
 
